@@ -126,6 +126,50 @@ func sysTxsOfPrepare(calls []sim.Call) [][]byte {
 }
 
 // c09FaultEnum injects every single fault into the block b executed from state w.
+// c09FaultPairs (thorough): every pair of faults on two different engine calls of one block.
+// The expectation is that of the earlier fault that stops the block.
+func c09FaultPairs(r *mc.Run, w *enga.World, path []enga.ABlock, b enga.ABlock) {
+	faults := c09Faults()
+	type pair struct{ a, b faultSpec }
+	var pairs []pair
+	for _, f1 := range faults {
+		for _, f2 := range faults {
+			if f1.Call < f2.Call && f1.Kind != sim.FaultStall && f2.Kind != sim.FaultStall {
+				pairs = append(pairs, pair{f1, f2})
+			}
+		}
+	}
+	mc.Parallel(len(pairs), 8, func(i int) {
+		p := pairs[i]
+		x, err := w.Fork()
+		must(err)
+		defer x.Close()
+		before := x.N.DumpStores(x.N.Ctx()).Hash()
+		x.N.EL.SetFaults(map[int]sim.FaultKind{p.a.Call: p.a.Kind, p.b.Call: p.b.Kind})
+		res := x.Run(b)
+		r.Transitions.Add(1)
+		r.Validated.Add(1)
+		committed := res.Err == nil && res.Finalize != nil
+		mustAbort := p.a.Expect != "tolerated" || p.b.Expect != "tolerated"
+		if committed == mustAbort {
+			pp := append(append([]enga.ABlock{}, path...), b)
+			r.Violate(mc.Violation{Class: fmt.Sprintf("fault-pair-verdict:%s+%s", p.a.Phase, p.b.Phase),
+				Msg:    fmt.Sprintf("faults %s@%s and %s@%s: committed=%v | history %v", p.a.Kind, p.a.Phase, p.b.Kind, p.b.Phase, committed, aPath(pp)),
+				Detail: engaDetail{Path: pp, Fault: fmt.Sprintf("%s@%d+%s@%d", p.a.Kind, p.a.Call, p.b.Kind, p.b.Call)}}, nil)
+		}
+		if !committed {
+			if res.Stage == "finalize" {
+				must(x.N.Restart())
+			}
+			if x.N.DumpStores(x.N.Ctx()).Hash() != before {
+				pp := append(append([]enga.ABlock{}, path...), b)
+				r.Violate(mc.Violation{Class: "state-persisted-from-aborted-block", Msg: fmt.Sprintf("fault pair | history %v", aPath(pp)), Detail: engaDetail{Path: pp}}, nil)
+			}
+		}
+		r.Outcome("fault-pair")
+	})
+}
+
 func c09FaultEnum(r *mc.Run, w *enga.World, path []enga.ABlock, b enga.ABlock) {
 	viol := func(class, msg string, f faultSpec) {
 		p := append(append([]enga.ABlock{}, path...), b)
@@ -242,7 +286,7 @@ func runC09(r *mc.Run) {
 	r.Bounds["depth_blocks"] = depth
 	r.Bounds["fault_enumeration_history_depth"] = faultDepth
 	r.Rule = "tree search over block histories of the real application (real PrepareProposal/ProcessProposal/FinalizeBlock/Commit, fake execution layer over IPC) with the head monitor on every finalised block; at every node up to the fault depth, for every menu block, every placement of one engine fault (error, INVALID, SYNCING, ACCEPTED, missing payload id, stall past the 1.2 s deadline) on each of the 5 engine calls; aborted blocks are retried (after a restart when FinalizeBlock failed) and compared with a fault-free replica"
-	r.Assumptions = []string{"single validator = proposer of every block", "ELSim defines the well-behaved engine", "pairs of faults are not explored"}
+	r.Assumptions = []string{"single validator = proposer of every block", "ELSim defines the well-behaved engine", "pairs of faults are explored from the initial state in the thorough tier only"}
 	root, err := enga.NewWorld(engaCfg())
 	if err != nil {
 		panic(err)
@@ -285,6 +329,9 @@ func runC09(r *mc.Run) {
 	// faults from the initial state too
 	for _, fb := range faultBlocks {
 		c09FaultEnum(r, root, nil, fb)
+		if r.Thorough() {
+			c09FaultPairs(r, root, nil, fb)
+		}
 	}
 	t.Explore(root)
 	r.Sample(map[string]any{"history": aPath([]enga.ABlock{menu[1], menu[3], menu[5]}), "faults_per_block": len(c09Faults())})
